@@ -15,7 +15,7 @@ def build(bin_step, py_step, miri_step, fuzz_step):
     S["C06"] = [bin_step("c06"), bin_step("c06", release=True, tiers=("thorough",))]
     S["C13"] = [bin_step("c13"), bin_step("c13", release=True, tiers=("thorough",))]
     S["C14"] = [bin_step("c13", prop="C14"), bin_step("c13", release=True, tiers=("thorough",), prop="C14")]
-    S["C20"] = [bin_step("c20")]
+    S["C20"] = [bin_step("c20"), py_step("gen_concat")]
     S["C11"] = [bin_step("c11")]
     S["C15"] = [bin_step("c11", prop="C15")]
     S["C19"] = [bin_step("c19"), py_step("gen_rebind")]
